@@ -41,6 +41,24 @@ def rule_keep_lists(ck, repo):
             ck.decide(k in reg, R, f'{flag}:{k}', reg[k].fq if k in reg else None,
                       f'kept key {k!r} is not a cached value of MoleculeContainer', file=flush.file, line=flush.lineno,
                       func=flush.qualname)
+    # keeping is opt-in: every keep_* parameter of every method of the container MRO defaults to False. Callers that change the structure
+    # (Graph.union writes into `self.copy()`, every mutator calls flush_cache()) rely on the default dropping / not transferring the ring and
+    # component caches
+    n_def = 0
+    for c in repo.mro(mc):
+        for fs_ in c.methods.values():
+            for f in fs_:
+                a = f.node.args
+                pos = a.posonlyargs + a.args
+                pairs = list(zip(pos[len(pos) - len(a.defaults):], a.defaults)) + [(x, d) for x, d in zip(a.kwonlyargs, a.kw_defaults) if d is not None]
+                for arg, d in pairs:
+                    if arg.arg.startswith('keep_') and arg.arg in ('keep_sssr', 'keep_components'):
+                        n_def += 1
+                        ck.decide(isinstance(d, ast.Constant) and d.value is False, R, f'{f.qualname}:{arg.arg}:default', src(d),
+                                  f'{f.qualname}({arg.arg}={src(d)}): keeping cached ring / component data is opt-in; with this default every caller that relies on '
+                                  f'a plain call to drop (or not to copy) them serves stale rings after its own structural writes',
+                                  file=f.file, line=f.lineno, func=f.qualname, construct=f'{arg.arg}={src(d)}')
+    ck.count('keep_* defaults', n_def)
     # what the kept keys read must not include anything a "structure unchanged" flush is used after
     ck.note(f'kept keys read: keep_sssr -> {sorted(P.kept_reads["keep_sssr"])}, keep_components -> {sorted(P.kept_reads["keep_components"])}')
     ck.decide(P.kept_reads['keep_sssr'] <= {'ATOMS', 'TOPO', 'IS8'} and P.kept_reads['keep_components'] <= {'ATOMS', 'TOPO'},
